@@ -88,10 +88,13 @@ def shrink(line, fails, rounds=12, batch=400, budget_s=45.0):
     """fails(list of lines) -> list of bool"""
     import time
     t0 = time.time()
+    if len(line) > 1_000_000: return line          # a case that large is reported as it is
     cur = line
     for _ in range(rounds):
         if time.time() - t0 > budget_s: break
         cands = sorted(set(candidates(cur)), key=len)[:batch]
+        # keep one round cheap on very wide trees (thousands of items): at most ~4 MB of candidate text
+        while len(cands) > 8 and sum(len(c) for c in cands) > 4_000_000: cands = cands[:len(cands) // 2]
         if not cands: break
         res = fails(cands)
         better = [c for c, f in zip(cands, res) if f and len(c) < len(cur)]
